@@ -63,6 +63,9 @@ func runC18(c *Ctx) {
 	// characters that mean something to a formatter, a template or a shell mean nothing in a subject
 	shapes = append(shapes, "metrics.cpu%.*", "load.100%", "fmt.%s.>", "%d", "%v.%v.*", "a.%!s(MISSING)", "a.%s", "100%%.>", "%[1]s.x", "back\\slash.*",
 		"$1.x.*", "{{.}}.>", "${HOME}.*", "q\"uote.*", "semi;colon", "a b.c.*", "new\nline.*", "%x%x%x%n")
+	// subjects with empty tokens (a doubled, leading or trailing dot) - validation objects to them, the identity is
+	// computed from the text as it is, before and after migration and re-encoding
+	shapes = append(shapes, "orders..eu.*", "orders.eu.", "orders..>", ".a.*", "a..b", "..", "a.b..*.c", "orders.eu..*", ".", "a.*.", "x..y..>")
 	// deep subjects: many literal tokens before the first wildcard (and none at all), several tails on the same prefix
 	for _, depth := range []int{7, 8, 9, 15, 16, 17, 20, 31, 32, 33, 64, 100} {
 		var lit []string
